@@ -12,6 +12,21 @@ CHECKS = {
          "within a real-arithmetic model of doubles with a 1e-9 guard band.",
     note="doubles modelled as reals (guard band 1e-9); pow(x,2.4) as UF with exact rational enclosure tables; trusted: z3/cvc5, vf/ref.py, CPython floats",
     design="3 C05", technique=TECH, thorough=True),
+ "C06": dict(
+    text="The real rgb_to_hsl -> hsl_to_rgb / parse_color_to_rgb string round trip, rgb() strings, tuples and the format dispatch are executed "
+         "symbolically for all 2^24 colours (numerals carried as tokens through the real string code); z3 proves the pre-rounding value equals the "
+         "channel and that the CSS Color 3 hsl algorithm reads the emitted value back as the colour; an IEEE-754 (Float64) twin proves the emitted "
+         "percentages pass the library's own range validation bit-exactly (compositional proof, every step an SMT query). Hex is a bounded clause only.",
+    note="real model with 1e-9 guard for the value identity, exact binary64 for range acceptance (upper bounds, NaN, division safety); float(repr(x))==x assumed; "
+         "hex output/input outside the symbolic claim",
+    design="3 C06", technique=TECH + "; QF_BVFP twin for rounding-sensitive kernels", thorough=True),
+ "C07": dict(
+    text="parse_color_to_rgb and the hsl/hsla/rgba helpers behind it are executed on CSS strings with symbolic numerals inside concrete spelling templates; "
+         "per path the solver compares with the CSS Color 3 algorithms (nearest 8-bit value for opaque forms, within 1.5 of the source-over blend for translucent "
+         "forms over any background), equivalent spellings give identical terms, 3-tuples/lists parse to themselves, 148 keywords are ground obligations.",
+    note="components range over their whole documented domain (8-bit ints, real percentages, hue in [-720,1080], alpha in [0,1]); spelling dimension is a finite "
+         "template list; decimal literal -> double assumed exact; hex strings outside the symbolic claim",
+    design="3 C07", technique=TECH, thorough=True),
 }
 
 NA = {
